@@ -17,7 +17,7 @@ def Bus.bit (c : Bus P) (j : Nat) : List P :=
 
 /-- the three branches of multibit_add_cable on (lower, wires) -/
 def mergeBus (c : Bus P) (i : Nat) (ps : List P) : Bus P :=
-  if i > c.lo then
+  if i ≥ c.lo then
     if i < c.lo + c.ws.length then
       ⟨c.lo, c.ws.set (i - c.lo) (c.ws.getD (i - c.lo) [] ++ ps)⟩
     else
@@ -31,7 +31,7 @@ theorem mergeInto_eq (ex : CCable) (i : Nat) (ps : List CPin) :
     (mergeInto ex i ps).wires = (mergeBus ⟨ex.lower, ex.wires⟩ i ps).ws ∧
     (mergeInto ex i ps).data = ex.data ∧ (mergeInto ex i ps).scalarFlag = ex.scalarFlag := by
   unfold mergeInto mergeBus
-  by_cases h1 : i > ex.lower
+  by_cases h1 : i ≥ ex.lower
   · by_cases h2 : i < ex.lower + ex.wires.length <;> simp [h1, h2]
   · simp [h1]
 
@@ -41,7 +41,7 @@ theorem mergeBus_bit (c : Bus P) (i : Nat) (ps : List P) (hi : i ≠ c.lo) (hne 
     (mergeBus c i ps).lo + (mergeBus c i ps).ws.length = max (c.lo + c.ws.length) (i + 1) := by
   have hlen : 0 < c.ws.length := List.length_pos_iff.mpr hne
   simp only [mergeBus]
-  by_cases h1 : i > c.lo
+  by_cases h1 : i ≥ c.lo
   · simp only [h1, if_true]
     by_cases h2 : i < c.lo + c.ws.length
     · simp only [h2, if_true]
